@@ -269,9 +269,11 @@ def run_check(prop, tier="quick", seed=None, nproc=None, runs=None, budget=None,
         "faults_fired": faults,
         "probes": probes,
         "probes_stuck_at_zero": zero,
-        "distinct_interleavings": {"measure": "distinct (triggered-subgraph digest, task execution order) pairs, updates with >= 2 tasks",
-                                   "pairs": len(inter), "graphs": len(graphs),
-                                   "graphs_seen_with_ge2_orders": sum(1 for g in graphs.values() if len(g) >= 2)},
+        "distinct_interleavings": ({"measure": "distinct (triggered-subgraph digest, task execution order) pairs, updates with >= 2 tasks",
+                                    "pairs": len(inter), "graphs": len(graphs),
+                                    "graphs_seen_with_ge2_orders": sum(1 for g in graphs.values() if len(g) >= 2)} if inter else
+                                   {"measure": "not measured by this check (execution orders are accounted in C01/C02); the schedule varies with "
+                                               "the %d (build, hash seed) worker configurations listed above" % len(hashseeds)}),
         "components": reg["components"],
         "known_findings_seen": known_seen,
         "source_digest": build.source_digest(),
